@@ -85,6 +85,8 @@ def main():
         viol = [l for l in out.splitlines() if l.startswith("VIOLATION")]
         what = [l.strip() for l in out.splitlines() if l.strip().startswith("what:")]
         results[c] = {"exit": rc, "violations": len(viol), "first": (what[0][:400] if what else ""), "wall_s": round(time.time() - t0)}
+        if rc not in (0, 1):
+            results[c]["output_tail"] = out[-1500:]
         meta["ran"].append("VERIF_REPO=<worktree with patch> ./check %s --tier quick -> exit %d" % (c, rc))
         # the evidence file of this run describes a mutated tree: restore the committed one
         sh("git checkout -- evidence/%s.json" % c, cwd=VERIF)
